@@ -44,7 +44,8 @@ def C10():
                    "covered"),
     "level_note": ("trusted: the 60-line integer oracle (floor modulus on __int128 / GMP mpz, trial-division primes), g++/ASan/UBSan; "
                    "shared-characteristic classes are exercised as histories initialize(p1) .. initialize(p2) inside one process, the "
-                   "replay case carries the previous characteristic"),
+                   "replay case carries the previous characteristic; the re-ranging histories (depth 4: set A, ask, set B, ask) use a "
+                   "fresh object each"),
     "rule": ("one evaluation = one public call (or operator expression) on the real class compared with the integer oracle; "
              "distinct inputs = (class, characteristic, operand tuple[, Q]); non-trivial = tuples where a reduction really happens "
              "(sum >= P, a < b, product >= P), raw integers outside [0,P), refused characteristics, partial inverses with T != Q or "
@@ -57,7 +58,11 @@ def C10():
                   "multi-fields: every range [a,b] <= 48 with product <= 2310 (all x, all sub-products Q; all triples for P <= 35, all "
                   "pairs for P <= 210) plus [2,13], [2,23], [3,29], [3,30], [2,37], [2,47], [2,100], [2,541], [65519,65521], "
                   "[65519,65539], [32749,32771] with boundary / structured operands wherever the product fits the element type (all "
-                  "three small run-time classes and the compile-time one up to P = 3234846615 >= 2^31)"),
+                  "three small run-time classes and the compile-time one up to P = 3234846615 >= 2^31); re-ranging histories on the "
+                  "five run-time multi-field classes: one object (or the shared static state) set to range A, asked a partial "
+                  "identity or partial inverse for Q, changed to range B (set_characteristic / assignment / swap / initialize), "
+                  "asked again for the same Q - every ordered pair (A,B) of the prime-ended ranges with product <= 2310, every "
+                  "common sub-product Q, both request kinds before and after"),
         "thorough": ("as quick with all triples for p <= 211 (run-time classes, Field_Zp) and for the compile-time primes <= 257, all "
                      "pairs for every prime <= 1009, full conversion interval for p <= 257, boundary primes 32749, 32771, 46337, "
                      "65519, 65521; multi-fields: all triples for P <= 110 (GMP classes) / P <= 210 (native small classes), all pairs "
